@@ -593,7 +593,7 @@ fn boundary_run(ops: &mut Vec<String>, bnd: (&str, &str), a_fill: usize, size: u
 /// The grid boundary x size class x (method of A, method of B) x where the boundary falls in the
 /// current chunk x body / tail / third-piece kinds.  Quick tier: every boundary x 9 size classes with
 /// two method pairs each (B by `encode` and one rotating pair); thorough tier: 20 size classes up to
-/// 1 MiB + 1 with all 36 method pairs (4 for the sizes above 131073).  The remaining dimensions
+/// 1 MiB + 1 with 18 of the 36 method pairs per cell, alternating halves (4 for the sizes above 131073).  The remaining dimensions
 /// rotate so that every value meets every boundary and every size class.
 pub fn enc_boundary_cases(thorough: bool) -> Vec<Vec<String>> {
     let mut cases = Vec::new();
@@ -605,11 +605,12 @@ pub fn enc_boundary_cases(thorough: bool) -> Vec<Vec<String>> {
         for (si, size) in boundary_sizes(thorough).into_iter().enumerate() {
             // production encoder: six input methods (S / T = through `dyn ZeroCopySink`)
             const EM: [&str; 6] = ["b", "c", "a", "r", "S", "T"];
-            let npairs = if !thorough { 2 } else if size > 131073 { 4 } else { 36 };
+            let npairs = if !thorough { 2 } else if size > 131073 { 4 } else { 18 };
             let mut ops = Vec::new();
             for k in 0..npairs {
                 rot += 1;
-                let pair = if thorough && npairs == 36 { k } else if k == 0 { 6 * (rot % 6) } else { (rot * 5 + bi + si) % 36 };
+                // thorough: half of the 36 pairs per cell, the other half in the neighbouring cell
+                let pair = if thorough && npairs == 18 { (2 * k + (bi + si) % 2) % 36 } else if k == 0 { 6 * (rot % 6) } else { (rot * 5 + bi + si) % 36 };
                 let (ma, mb) = (EM[pair / 6], EM[pair % 6]);
                 let a_fill = a_fills[(rot + bi) % a_fills.len()];
                 let body_kind = if (rot / 3) % 4 == 3 { 1 + (rot / 12) % 2 } else { 0 };
@@ -707,10 +708,17 @@ pub fn chunk_len_sweep(verb: &str, thorough: bool) -> Vec<Vec<String>> {
         if verb == "zdec" {
             let cut = [254usize, 253, 254, 255][i % 4];
             ops.push(format!("zdec {} {} {}", m, 252 + k, cut));
+        } else if thorough {
+            // with FE as the last byte of the first chunk (same chunking; the header under test follows an
+            // FE) for every k; all zeros for every fourth k and around the multiples of 253
+            ops.push(format!("zenc {} {} fe", m, 252 + k));
+            if k % 4 == 0 || k % 253 <= 1 || k % 253 == 252 {
+                ops.push(prod.op());
+                ops.push(format!("zenc {} {}", m, 252 + k));
+            }
         } else {
             ops.push(format!("zenc {} {}", m, 252 + k));
-            // the same chunking with FE as the last byte of the first chunk: the header under test follows an FE
-            if thorough || i % 2 == 0 {
+            if i % 2 == 0 {
                 ops.push(prod.op());
                 ops.push(format!("zenc {} {} fe", m, 252 + k));
             }
